@@ -390,6 +390,9 @@ class Agg:
             pass
 
 
+DEFAULT_TIMEOUT = {'quick': 2700, 'thorough': 14400}   # generous wall-clock watchdogs; verdicts never depend on them
+
+
 def run_shards(exe, mode, seed, ncases, runspec, agg, nshards=None, timeout=900, env_extra=None, extra_args=()):
     """Run `exe mode seed start step count ...` over nshards processes."""
     nshards = nshards or NCPU
@@ -440,7 +443,16 @@ def run_shards(exe, mode, seed, ncases, runspec, agg, nshards=None, timeout=900,
                 pass
             err = open(se.name, errors='replace').read()
             if hung:
-                agg.viol.append(('hang', case, 'watchdog %ds expired' % timeout, runspec))
+                # a case that stopped advancing is a hang (a violation key like any other); a shard that was still
+                # advancing from case to case when the time budget ran out (loaded machine) is inconclusive
+                try:
+                    idle = time.time() - os.path.getmtime(prog)
+                except OSError:
+                    idle = 1e9
+                if idle > 600:
+                    agg.viol.append(('hang', case, 'no progress for %ds at case %s when the %ds watchdog expired' % (idle, case, timeout), runspec))
+                else:
+                    agg.inconclusive.append('time budget of %ds exhausted while shard %d was still advancing (case %s); re-run on a less loaded machine' % (timeout, s, case))
             elif rc == 3:
                 agg.inconclusive.append('harness error shard %d: %s' % (s, err[-2000:]))
             else:
@@ -622,7 +634,7 @@ def do_check(pid, tier, seed):
                       srcs=list(run.get('srcs', ())), env=run.get('env', {}), args=list(args), n=n)
             t1 = time.time()
             run_shards(exe, run['mode'], seed, n, rs, agg, nshards=run.get('shards'),
-                       timeout=run.get('timeout', {}).get(tier, 1800) if isinstance(run.get('timeout'), dict) else run.get('timeout', 1800),
+                       timeout=run.get('timeout', {}).get(tier, DEFAULT_TIMEOUT[tier]) if isinstance(run.get('timeout'), dict) else run.get('timeout', DEFAULT_TIMEOUT[tier]),
                        env_extra=run.get('env'), extra_args=args)
             desc.append(dict(harness=run['h'], mode=run['mode'], flavour=run['flavour'], cases=n,
                              env=run.get('env', {}), wall_s=round(time.time() - t1, 1)))
